@@ -10,13 +10,16 @@ from .. import stages
 OPTS = "2,1,0,2," + "d" * 31
 LINES = ["int x = ;", "int y;", "foo(1,", "  return a +;", "\tif (a", "int é = ;", "中 = 3 3;", "/* c */ int z", "int w; // c",
          "int q = 1 \\", "  + ;", "struct s { int", "} ;", "x y z;", "", "   ", "/* multi", "   line */ int k = ;", "int \U0001d4b3;", "f(a,,b);",
-         "int a[ = 2;", "\"str\" 1;"]
+         "int a[ = 2;", "\"str\" 1;",
+         # lines that END in a multi-byte code point (the line break right after it), in every lexical situation
+         "// café", "int y2; // 中文", "/* é", "é */ int v = ;", "int é", "x = é", "int w2 = 1 + \U0001d4b3", "\"str é", "'é", "é", "中", "int z3 = ; // \U0001f600",
+         "  \té", "x \\é"]
 
 
 def gen_text(rng, with_markers):
     n = rng.randrange(2, 9)
     ls = [rng.choice(LINES) for _ in range(n)]
-    if with_markers and not any(l.startswith("/* multi") or l.endswith("\\") for l in ls):
+    if with_markers and not any((l.startswith("/*") and "*/" not in l) or l.endswith("\\") for l in ls):
         for _ in range(rng.randrange(1, 3)):
             form = rng.choice(['# %d "m.c"', '#line %d "m.c"', '#line %d', '# %d "m.c" 1 3', '  # %d "m.c"'])
             ls.insert(rng.randrange(0, len(ls) + 1), form % rng.choice([1, 7, 100, 12345]))
@@ -58,7 +61,7 @@ def run(ctx):
     rng = ctx.rng
     N = 1200 if ctx.quick else 20000
     texts = [gen_text(rng, i % 3 == 0) for i in range(N)]
-    texts += ["int x;", "x", "\nx", "\n\n  x =", "# 5 \"a\"\nx =", "x\n# 5 \"a\"\ny =", "a\n\nb\n#line 9\n\nc c", "é =", "\U0001d4b3 \U0001d4b3 =", "int\n=\n;\n"]
+    texts += ["int x;", "x", "\nx", "\n\n  x =", "# 5 \"a\"\nx =", "x\n# 5 \"a\"\ny =", "a\n\nb\n#line 9\n\nc c", "é =", "\U0001d4b3 \U0001d4b3 =", "int\n=\n;\n", "int a;\n// café\nint y = ;\n", "é\n=", "// 中\n\n\nx =", "/* é\né */ y =", "x é\n\ty ="]
     res = impl_run(ctx, texts)
     # ---- correspondence with the Lean model (positions, locations, excerpts)
     from .. import leanb
@@ -97,7 +100,7 @@ def run(ctx):
         # the start of a physical line that continues a spliced line / multi-line comment is still a line boundary for positions
         pairs.append("\n".join(ls[:li] + [""] * k + ls[li:])); meta.append(("nl", t, li, k))
         # blanks at the start of line li (before every token of that line) -- not inside a comment/splice continuation
-        if not any(x in t for x in ("/* multi", "\\\n")) and not ls[li].lstrip().startswith("#"):
+        if not any(x in t for x in ("/* multi", "/* é", "\\\n")) and not ls[li].lstrip().startswith("#"):
             pairs.append("\n".join(ls[:li] + [" " * k + ls[li]] + ls[li + 1:])); meta.append(("sp", t, li, k))
         # text after line li replaced
         pairs.append("\n".join(ls[:li + 1] + ["zzz ( ;", "int"])); meta.append(("post", t, li, 0))
